@@ -23,6 +23,7 @@ import (
 
 	"github.com/onflow/cadence"
 	"github.com/onflow/cadence/common"
+	cdcrt "github.com/onflow/cadence/runtime"
 
 	"verifharness/host"
 	"verifharness/util"
@@ -363,7 +364,7 @@ func replayAtt(b *ABeh, useVM bool) *AFail {
 	if useVM {
 		eng = "vm"
 	}
-	w := host.NewWorld()
+	w := host.NewWorldWithConfig(cdcrt.Config{AtreeValidationEnabled: false})
 	if err := w.Deploy(host.Addr(1), "T", attContractFor(b.Cfg.Variant)); err != nil {
 		return &AFail{ID: b.ID, Engine: eng, Kind: "deploy", Harness: true, Msg: err.Error()}
 	}
